@@ -120,6 +120,14 @@ CHECKS = {
             'Exhaustive over subsets of the five handler sources x deferring subsets x callable / sequence / mapping form x '
             '{scalar, protocol class, list subclass, class without converter, List[int]} x {field, List, Optional, Dict value, '
             'tuple slot} x {from_data, into_data} x class handlers own / inherited, below a nested dataclass.', 'section 7 C18'),
+    'C19': ('explicit TLA+ state machine of stores, caller streams and library handles (PaneIO.tla) with ownership '
+            'invariants, TLC exhaustive; TLC-simulated behaviours executed on real files / StringIO / text file objects with `open` '
+            'shadowed in pane.io, recorded steps validated by the stateful TLC trace spec; TLC-enumerated typed values written and '
+            'read back through every sink kind and the option universes (JsonOpts, YamlOpts) printed by TLC',
+            'Ownership (library handles closed and UTF-8, caller streams left open, one open per path call), one value per YAML '
+            'document incl. null documents, and read-back equality under Python == for every JSON/YAML representable typed value '
+            'of the io universe (awkward texts: non-ASCII, astral, multi-line, padded, yes/null/~/1e3/date-like) with 6 JSON and '
+            '768 YAML option sets and 5 sink kinds in rotation.', 'section 7 C19'),
 }
 
 NOT_YET = 'check not built yet (work in progress; see DESIGN.md section 12 build order)'
